@@ -20,16 +20,19 @@ Definition long_closer (n : nat) : bytes := 93 :: repeat 61 n ++ [93].
 (** "[" "="^n "[" *)
 Definition long_opener (n : nat) : bytes := 91 :: repeat 61 n ++ [91].
 
-(** * The rule: [AppendTextComment::text]
+(** * The rule: [AppendTextComment::text]  (as repaired by /repo commit d1a6e5c)
 
     [loop { let close_comment = format!("]{}]", "=".repeat(equal_count));
-            if !content.contains(&close_comment) { break close_comment; } equal_count += 1; }]
-    The Rust loop has no bound; it stops at the latest when the closer is longer than the
+            let open_comment = format!("[{}[", "=".repeat(equal_count));
+            if !content.contains(&close_comment) && !content.contains(&open_comment) { break close_comment; }
+            equal_count += 1; }]
+    The Rust loop has no bound; it stops at the latest when the brackets are longer than the
     content, so fuel [S (length content)] is never exhausted (proved: [comment_level_ok]). *)
 Fixpoint find_level (fuel : nat) (content : bytes) (n : nat) : nat :=
   match fuel with
   | O => n
-  | S f => if find_sub (long_closer n) content then find_level f content (S n) else n
+  | S f => if find_sub (long_closer n) content || find_sub (long_opener n) content
+           then find_level f content (S n) else n
   end.
 
 Definition comment_level (content : bytes) : nat := find_level (S (length content)) content 0.
@@ -37,13 +40,35 @@ Definition comment_level (content : bytes) : nat := find_level (S (length conten
 Definition has_lf (s : bytes) : bool := existsb (N.eqb 10) s.
 Definition has_cr (s : bytes) : bool := existsb (N.eqb 13) s.
 
-(** [if content.is_empty() { "" } else if content.contains('\n') { "--[=*[\n{content}\n]=*]" }
-     else { "--{content}" }].  The empty result means "the rule does nothing". *)
+Fixpoint skip_eqs (s : bytes) : bytes :=
+  match s with
+  | 61 :: s' => skip_eqs s'
+  | _ => s
+  end.
+
+(** [starts_with_long_bracket]: [content.strip_prefix('[').map(|rest| rest.trim_start_matches('=').starts_with('['))] *)
+Definition starts_with_long_bracket (content : bytes) : bool :=
+  match content with
+  | 91 :: rest =>
+    match skip_eqs rest with
+    | 91 :: _ => true
+    | _ => false
+    end
+  | _ => false
+  end.
+
+(** the long-comment form is used when a line comment cannot hold the text:
+    [content.contains(['\n', '\r']) || starts_with_long_bracket(&content)] *)
+Definition block_form (content : bytes) : bool :=
+  has_lf content || has_cr content || starts_with_long_bracket content.
+
+(** [if content.is_empty() { "" } else if block_form { "--[=*[\n{content}\n]=*]" } else { "--{content}" }].
+    The empty result means "the rule does nothing". *)
 Definition comment_of (content : bytes) : bytes :=
   match content with
   | [] => []
   | _ =>
-    if has_lf content then
+    if block_form content then
       let n := comment_level content in
       [45; 45] ++ long_opener n ++ [10] ++ content ++ [10] ++ long_closer n
     else [45; 45] ++ content
@@ -77,12 +102,6 @@ Definition start_insertion (content : bytes) : bytes :=
     [let is_multiline_comment = content.strip_prefix("--[")
          .map(|rest| rest.trim_start_matches('=').starts_with('[')).unwrap_or(false);
      !is_multiline_comment] *)
-Fixpoint skip_eqs (s : bytes) : bytes :=
-  match s with
-  | 61 :: s' => skip_eqs s'
-  | _ => s
-  end.
-
 Definition is_multiline_comment (content : bytes) : bool :=
   match content with
   | 45 :: 45 :: 91 :: rest =>
@@ -148,14 +167,23 @@ Definition lex_comment (s : bytes) : option nat :=
   | _ => None
   end.
 
-(** * The two recorded defect classes (decidable) *)
-
-(** a single-line text that begins with a long-bracket opener: "--" ++ text opens a long comment *)
-Definition Known_opener (content : bytes) : bool :=
-  negb (has_lf content) && match long_open content with Some _ => true | None => false end.
-
-(** a single-line text containing a carriage return: the short comment ends at the CR *)
-Definition Known_cr (content : bytes) : bool := negb (has_lf content) && has_cr content.
+(** Lua 5.1 (PUC-Rio [llex.c], [LUA_COMPAT_LSTR = 1], the default build) additionally rejects a
+    level-0 long bracket whose content holds a nested "[[" ("nesting of [[...]] is deprecated") *)
+Definition lex_comment51 (s : bytes) : option nat :=
+  match s with
+  | 45 :: 45 :: t =>
+    match long_open t with
+    | Some (n, body) =>
+      match find_end (long_closer n) body with
+      | Some k =>
+        if Nat.eqb n 0 && find_sub [91; 91] (firstn (k - 2) body) then None
+        else Some (2 + (n + 2) + k)%nat
+      | None => None
+      end
+    | None => Some (2 + line_len t)%nat
+    end
+  | _ => None
+  end.
 
 (** what may follow a short comment in the generated file: nothing, or a line break (the
     generator's [uncomment] / the "\n" trivia of location [start]) *)
